@@ -10,7 +10,13 @@ RULE = ("exhaustive product 12 months x {int, zero-padded decimal strings, case 
         "from parse_string with a month middleware in the parse stack); month values that are instances of int / str "
         "SUBCLASSES (user subclass, IntEnum / calendar.Month / IntFlag members, subclass with its own text forms, str-mixin "
         "Enum members): every month 1..12 and out-of-range numbers, digit strings and names, x 3 middlewares x 9 ordered pairs, "
-        "chains, several entries, edit sequences, libraries with other blocks. "
+        "chains, several entries, edit sequences, libraries with other blocks; month LOOK-ALIKES (c15_look.py): every abbreviation "
+        "and full name with one letter replaced by a character equal to it only under casefold() / upper() / NFKC-NFKD / after "
+        "dropping accents, letter + combining mark, an invisible or whitespace character at an edge or inside, whole words in "
+        "fullwidth / mathematical / circled letters, 0..13 in every other decimal digit system, as superscripts / circled / "
+        "Roman / CJK numerals and with what int() tolerates - months exactly when lower() / isdecimal()+int() of the running "
+        "interpreter say so (computed by the oracle), x 3 middlewares, 9 ordered pairs on a sample, chains, next to the real "
+        "spelling in one library, set by the caller between two runs. "
         "distinct = distinct (value, middleware sequence); non-trivial = the value is a month spelling or a near miss "
         "(out-of-range number, enclosed or padded month, other type)")
 TRUSTED = ["oracle instances: str.lower restricted to ASCII, int() restricted to ASCII decimals (inputs outside are "
@@ -215,7 +221,8 @@ def generate(rng, tier):
     cases += gen_chains(rng, tier, fam)
     cases += gen_edits(rng, tier)
     cases += gen_libs(rng, tier)
-    cases += gen_subclass(rng, tier)          # last: the streams above are the same as before for a given seed
+    cases += gen_subclass(rng, tier)          # appended: the streams above are the same as before for a given seed
+    cases += gen_lookalikes(rng, tier)        # appended after gen_subclass for the same reason
     return cases
 
 
@@ -569,6 +576,80 @@ def gen_subclass(rng, tier):
     return cases
 
 
+def gen_lookalikes(rng, tier):
+    """Month look-alikes under other case / normalisation notions (kinds and pools: c15_look.py).  input["look"] names the kind.
+
+    lookalike        one value x the 3 single middlewares; x the 9 ordered pairs for the small pools (fold / upper / lower) and
+                     a sample of the others; other entry shapes; chains of three and longer
+    lookalike-multi  look-alikes next to real spellings of the same month in ONE library through one instance per position
+    lookalike-edit   transform / caller sets the month to a look-alike (or back to a real spelling) / transform"""
+    from . import c15_look
+    quick = tier == "quick"
+    cases = []
+    vals = c15_look.gen_values(rng, tier, ABBR, FULL)
+    for kind, v, pairs in vals:
+        for seq in (SEQS if pairs else SEQS[:3]):
+            cases.append({"stream": "lookalike", "input": {"value": v, "mws": seq, "shape": 0, "look": kind}})
+    by_kind = {}
+    for kind, v, _ in vals:
+        by_kind.setdefault(kind, []).append(v)
+    kinds = sorted(by_kind)
+
+    def some():
+        kind = rng.choice(kinds)
+        return kind, rng.choice(by_kind[kind])
+    for kind in kinds:                        # other shapes, chains: every kind
+        for _ in range(4 if quick else 60):
+            v = rng.choice(by_kind[kind])
+            cases.append({"stream": "lookalike", "input": {"value": v, "mws": rng.choice(SEQS), "shape": rng.choice([1, 2, 3]), "look": kind}})
+            cases.append({"stream": "lookalike", "input": {"value": v, "mws": [rng.randrange(3) for _ in range(rng.randint(3, 6))],
+                                                            "shape": rng.choice([0, 0, 2, 3]), "look": kind}})
+    for _ in range(60 if quick else 1200):
+        m = rng.randint(1, 12)
+        vs, looks = [], []
+        for _ in range(rng.randint(2, 5)):
+            if rng.random() < 0.5:
+                kind, v = some()
+                looks.append(kind)
+                vs.append(v)
+            else:
+                vs.append(jv(rng.choice(spellings(m))))
+        if not looks:
+            kind, vs[rng.randrange(len(vs))] = some()
+            looks.append(kind)
+        seq = rng.choice(SEQS) if rng.random() < 0.7 else [rng.randrange(3) for _ in range(rng.randint(3, 5))]
+        cases.append({"stream": "lookalike-multi", "input": {"values": vs, "mws": seq, "look": sorted(set(looks))}})
+    for _ in range(60 if quick else 1200):
+        k = rng.randrange(3)
+        kind, v = some()
+        real = jv(rng.choice(spellings(rng.randint(1, 12))))
+        inpl, reuse = rng.randrange(2), rng.randrange(2)
+        steps = [["mw", k, inpl, reuse], ["set", v, rng.randrange(4)], ["mw", rng.randrange(3) if rng.random() < 0.3 else k, inpl, reuse]]
+        if rng.random() < 0.3:
+            steps += [["set", real, rng.randrange(4)], ["mw", k, inpl, reuse]]
+        start = real if rng.random() < 0.7 else some()[1]
+        cases.append({"stream": "lookalike-edit", "input": {"start": start, "steps": steps, "shape": rng.choice([0, 2]), "look": [kind]}})
+    return cases
+
+
+def look_tags(inp, *values):
+    """Distribution tags of the look-alike streams: the kind(s), and what the oracle makes of the values"""
+    look = inp.get("look")
+    if look is None:
+        return []
+    kinds = look if isinstance(look, list) else [look]
+    out = ["look-" + k for k in kinds]
+    for v in values:
+        if isinstance(v, str) and not isinstance(v, bool):
+            if month_of(v) is None:
+                out.append("look-nonmonth")
+            elif v.isdecimal():
+                out.append("look-month:int()-accepts")
+            else:
+                out.append("look-month:lower()-maps-onto-table")
+    return sorted(set(out))
+
+
 def month_of(v):
     """The month a value spells (property text), or None."""
     if isinstance(v, bool):
@@ -696,11 +777,12 @@ def impl(case):
         ok, detail = True, ""
     rec["oracle"] = {"ok": ok, "detail": detail}
     m = month_of(v)
-    rec["nontrivial"] = (m is not None) or case["stream"] in ("near", "shape")
+    rec["nontrivial"] = (m is not None) or case["stream"] in ("near", "shape", "lookalike")
     rec["tags"] = ["month" if m is not None else "nonmonth"] + (["chain%d" % min(len(inp["mws"]), 4)] if len(inp["mws"]) > 2 else [])
     st = sub_tags(inp["value"])
     if st:
         rec["tags"] += st + ["subclass-month" if m is not None else "subclass-nonmonth"]
+    rec["tags"] += look_tags(inp, v)
     rec["summary"] = ("[" + ", ".join("(%r, %s)" % (f.key, sr(f.value)) for f in blk.fields) + "]")[:200] if type(blk).__name__ == "Entry" else type(blk).__name__
     return rec
 
@@ -722,7 +804,7 @@ def impl_multi(case, MW):
             lib = MW[k]().transform(lib)
         return lib
     r = implutil.guarded(run)
-    rec = {"sx_in": sx_in, "key": json.dumps([inp["values"], inp["mws"]]), "nontrivial": True, "tags": ["multi"] + sub_tags(*inp["values"])}
+    rec = {"sx_in": sx_in, "key": json.dumps([inp["values"], inp["mws"]]), "nontrivial": True, "tags": ["multi"] + sub_tags(*inp["values"]) + look_tags(inp, *[x for x in vs if isinstance(x, str) and not x.isascii()])}
     if r[0] == "exc":
         rec["sx_out"] = implutil.r_exc(r[1])
         rec["oracle"] = {"ok": False, "detail": "middleware raised %s on month values %r" % (r[2], vs)}
@@ -823,7 +905,8 @@ def impl_edit(case, MW):
     sx_in = [10, tail, state["snap"]] if state["snap"] is not None else None
     rec = {"sx_in": sx_in, "key": json.dumps(inp, sort_keys=True), "nontrivial": True,
            "tags": ["edit", "edit-set" if sets else "edit-copy", "parsed" if make is not None else "built"]
-           + sub_tags(inp["start"], *[st[1] for st in steps if st[0] == "set"])}
+           + sub_tags(inp["start"], *[st[1] for st in steps if st[0] == "set"])
+           + look_tags(inp, *[x for x in [start] + [unjv(st[1]) for st in steps if st[0] == "set"] if isinstance(x, str) and not x.isascii()])}
     if r[0] == "exc":
         rec["sx_out"] = implutil.r_exc(r[1]) if sx_in is not None else None
         rec["oracle"] = {"ok": False, "detail": "raised %s in sequence %r starting from month %s" % (r[2], steps, sr(start))}
